@@ -1759,6 +1759,11 @@ class Evaluator:
     def method_call(self, base, meth, args, kwargs, fr, node):
         if is_unknown(base):
             return base
+        if isinstance(base, Tup) and meth == 'index' and len(args) == 1 and isinstance(args[0], Const) \
+                and all(isinstance(i, Const) for i in base.items):
+            vals_ = [i.v for i in base.items]
+            if args[0].v in vals_:
+                return sp.Integer(vals_.index(args[0].v))      # position of a constant in a constant sequence
         if isinstance(base, Obj) and isinstance(base.fields.get('__items__'), Tup) and meth in ('append', 'extend') \
                 and len(args) == 1:
             cur = base.fields['__items__']
